@@ -51,12 +51,12 @@ def Bufio.readLineSlice : Nat → Bytes → Bufio → (Option Bytes × Option IO
       else ((some (acc ++ l), none), b')
 
 /-- `ReadLine()` called `n` times (the lines of a head), stopping at the first error. -/
-def Bufio.readLines : Nat → Nat → Bufio → List Bytes × Option IOErr × Bufio
+def Bufio.readLinesAny : Nat → Nat → Bufio → List Bytes × Option IOErr × Bufio
   | 0, _, b => ([], none, b)
   | n + 1, fuel, b =>
     match b.readLineSlice fuel [] with
     | ((some l, _), b') =>
-      let (ls, e, b'') := Bufio.readLines n fuel b'
+      let (ls, e, b'') := Bufio.readLinesAny n fuel b'
       (l :: ls, e, b'')
     | ((none, e), b') => ([], e, b')
 
